@@ -177,7 +177,35 @@ def run(ctx, only_exports=False):
     hs[3] = emit_histories(ctx, 3, 2 if quick else 3)
     sim = {3: emit_histories(ctx, 3, 8, simulate=40 if quick else 600, name="sim_D3", seed=ctx.seed + 1),
            2: emit_histories(ctx, 2, 10, simulate=20 if quick else 300, name="sim_D2", seed=ctx.seed + 2)}
+    # derived families (compositions of alphabet calls; the trace spec recomputes every post-state):
+    # files: mutate a loaded region and load the same file again; two live regions: regions are
+    # independent values, a union must not make them share storage
+    fam = {}
+    for D in (2, 3):
+        ops = []
+        for h in hs[D]:
+            c = {k: v for k, v in h[0].items() if k not in ("post", "ans", "postlive")}
+            if c["op"] in ("add_pixels", "add_shape", "union", "union_norenorm", "without", "intersect", "symmetric_difference") \
+                    and c not in ops:
+                ops.append(c)
+        lives = [c for c in ({k: v for k, v in h[0].items() if k not in ("post", "ans", "postlive")} for h in hs[D])
+                 if c["op"] == "live_add"]
+        lives = [c for i, c in enumerate(lives) if c not in lives[:i]]
+        out = []
+        sub = ops if not quick else ops[::3]
+        for a in ops:
+            for b in sub:
+                out.append([a, {"op": "save_file"}, {"op": "load_file"}, b, {"op": "load_file"}, {"op": "get_area"}])
+                out.append([a, {"op": "live_union_self"}, b, {"op": "get_demoted"}])
+            for x in lives:
+                out.append([x, {"op": "union_live"}, a, {"op": "get_demoted"}])
+                for b in sub:
+                    out.append([x, a, {"op": "union_live"}, b])
+        fam[D] = out
+    frecs, frej = run_histories(ctx, fam, "fam")
     recs, rejected = run_histories(ctx, hs, "exh")
+    rejected += frej
+    recs += frecs
     recs2, rej2 = run_histories(ctx, sim, "sim")
     rejected += rej2
     n = len(recs) + len(recs2)
@@ -189,7 +217,7 @@ def run(ctx, only_exports=False):
     rrecs, rrej = region_random.run(ctx, nrand, validate)
     n += len(rrecs)
     ctx.sample({"id": rrecs[0]["id"], "calls": [s["op"] for s in rrecs[0]["steps"]], "atoms": rrecs[0]["atoms"][:6]})
-    ctx.count(evaluations=n, nontrivial=len({json.dumps([{k: v for k, v in s.items() if k not in ("obs", "post")}
+    ctx.count(evaluations=n, nontrivial=len({json.dumps([{k: v for k, v in s.items() if k not in ("obs", "post", "postlive")}
                                                          for s in r["steps"]], sort_keys=True) for r in recs + recs2}) + len(rrecs),
               traces=n)
     ctx.cov["rule"] = ("history = sequence of Region calls; exhaustive over the RegionAlphabet to length K (D=2 and D=3: K=%d), "
